@@ -576,6 +576,16 @@ func (env *SpecEnv) call(e *SExpr) SpecVal {
 			}
 			x.used[key+" (clause "+label+" used as lemma hypothesis)"] = true
 			return SpecVal{t: sub.evalBool(cl.Expr), typ: tBool}
+		case "written":
+			// written(pkg.var) / written(var): ghost flag "this call wrote the package-level variable"
+			name := strings.Trim(args[0].String(), "()")
+			if !strings.Contains(name, ".") && env.pkg != nil {
+				name = pkgShort(env.pkg.Path()) + "." + name
+			}
+			if v, ok := env.state().env["GW$"+name]; ok {
+				return SpecVal{t: v, typ: tBool}
+			}
+			return SpecVal{t: TFalse, typ: tBool}
 		case "idx":
 			// idx() : hidden index of the innermost unnamed range loop
 			return env.ident("#idx")
